@@ -58,7 +58,7 @@ VARIABLES lead,     \* [Nodes -> Nodes]  coordinator in the view of each node
           th,       \* [Threads -> [pc, frames, tries, res]]
           changes,  \* view changes left
           faults,   \* injected read failures left
-          badRemove,\* a record naming a node with a running instance was removed by another node
+          badRemove,\* a record naming a node with a running instance was removed by a relocation item (not by the instance's own stop)
           last
 
 vars == <<lead, rec, inst, flight, wait, th, changes, faults, badRemove, last>>
@@ -126,7 +126,7 @@ RecreateRemove(t) ==
   /\ LET c == Cur(th[t])
          blind == Has("BlindRemove") \/ Has("QuorumMissFallsThrough")
      IN Commit(IF blind \/ rec = th[t].seen
-               THEN [S0 EXCEPT !.badRemove = @ \/ (rec \in Nodes /\ rec # c /\ inst[rec] > 0), !.rec = NoNode, !.th[t].pc = "M"]
+               THEN [S0 EXCEPT !.badRemove = @ \/ (rec \in Nodes /\ inst[rec] > 0), !.rec = NoNode, !.th[t].pc = "M"]
                ELSE Finish(S0, t), t, "RR")                                                \* repaired: somebody re-established it meanwhile
 
 \* spawnSingletonOnLeader: Members, leader pick
@@ -199,7 +199,7 @@ Running == {n \in Nodes : inst[n] > 0}
 OneSingleton == Cardinality(Running) <= 1 /\ \A n \in Nodes : inst[n] <= 1
 Quiescent == \A t \in Threads : th[t].pc \in {"done", "cut"}
 NoCut == \A t \in Threads : th[t].pc # "cut"
-\* a record owned by a live survivor is never removed by a non-owner
+\* a record owned by a live survivor is never removed by a non-owner (another node, or another call on the same node)
 NoForeignRemove == ~badRemove
 TypeOK == /\ rec \in Nodes \cup {NoNode, "D"}
           /\ \A t \in Threads : th[t].pc \in {"call", "M", "AE", "pre", "AP", "AG", "RG", "RR", "wait", "woken", "done", "cut"}
